@@ -246,7 +246,7 @@ theorem grow_opPick (s : St) (call pn : Nat) (m : String) (ctx : CtxKind) (dl : 
                 · exact Grow.refl s
                 · simp only
                   split
-                  · exact (show Grow s { s with rr := (s.rr + 1) % 2 ^ 32 } from (grow_of_same ⟨rfl, rfl, rfl, rfl⟩)).trans
+                  · exact (show Grow s { s with rr := (s.rr + 1) % 2 ^ 64 } from (grow_of_same ⟨rfl, rfl, rfl, rfl⟩)).trans
                       (grow_finishPick _ _ _ _ _ _ _ _ _)
                   · exact (grow_of_same ⟨rfl, rfl, rfl, rfl⟩)
               · have h1 := grow_chooseSlot s c l key
